@@ -87,6 +87,26 @@ SubSetIp(st, arg) ==
   IF (t = TA /\ Len(arg) = 4) \/ (t = TAAAA /\ Len(arg) = 16) THEN Okay([st EXCEPT !.p = Overwrite(@, st.c.ne + 10, arg)])
   ELSE Fails(st)
 
+\* ---- next() / next_including_opt(): advance, or restart from the section's offset after a deletion ----
+\* (question_iterator.rs, response_iterator.rs).  The records-left counter of a live cursor is the
+\* number of records of its section behind it; a tombstone re-reads the header count.
+CursorAtC(p, sec, off) ==
+  LET ne == CName(p, off).end IN
+  [off |-> off, ne |-> ne, nx |-> IF sec = "Q" THEN ne + 4 ELSE ne + 10 + U16(p, ne + 8), tomb |-> FALSE]
+SecOff(v, sec) == CASE sec = "Q" -> v.oq [] sec = "AN" -> v.oan [] sec = "NS" -> v.ons [] OTHER -> v.oar
+SubNext(st, sec, incl) ==
+  LET rs == SecOf(DecodeT(st.p), sec)
+      cnt == U16(st.p, CountOff(sec))
+      k == StartIdx([j \in 1..Len(rs) |-> rs[j].off], st.c.off)
+      left0 == IF st.c.tomb THEN cnt ELSE Len(rs) - k
+      from == IF st.c.tomb THEN SecOff(st.v, sec) ELSE st.c.nx
+      end == [ok |-> FALSE, p |-> st.p, v |-> st.v, c |-> st.c]
+  IN IF left0 = 0 THEN end
+     ELSE LET c1 == CursorAtC(st.p, sec, from) IN
+          IF sec = "AR" /\ ~incl /\ U16(st.p, c1.ne) = TOPT
+          THEN (IF left0 = 1 THEN end ELSE [ok |-> TRUE, p |-> st.p, v |-> st.v, c |-> CursorAtC(st.p, sec, c1.nx)])
+          ELSE [ok |-> TRUE, p |-> st.p, v |-> st.v, c |-> c1]
+
 \* ---- insert_rr on the object (no cursor) ----
 NamesRaw(ns) == LET RECURSIVE F(_) F(k) == IF k > Len(ns) THEN <<>> ELSE RawName(ns[k]) \o F(k + 1) IN F(1)
 RRWire(r) ==
